@@ -43,7 +43,8 @@ RayCasting<Scalar, DIM>::RayCasting(GridIndexMapping<Scalar, DIM> * gridIndexMap
   rayTMax_(PointType::Zero()),
   rayTDelta_(PointType::Zero()),
   rayDirection_(PointType::Zero()),
-  rayStep_(Eigen::Matrix<int, DIM, 1>::Zero())
+  rayStep_(Eigen::Matrix<int, DIM, 1>::Zero()),
+  rayRemainingSteps_(Eigen::Matrix<int, DIM, 1>::Zero())
 {
 }
 
@@ -126,6 +127,15 @@ RayCasting<Scalar, DIM>::setEndPoint(const PointType & endPoint)
       rayTMax_[i] = std::numeric_limits<Scalar>::max();
       rayTDelta_[i] = std::numeric_limits<Scalar>::max();
     }
+
+    // number of cell borders the ray crosses along this axis: an axis is never selected once all
+    // its crossings are done, whatever rounding does to its crossing parameters (for a ray almost
+    // parallel to an axis (border - origin) / direction loses all its accuracy)
+    rayRemainingSteps_[i] = std::abs(
+      static_cast<int>(rayEndIndexes_[i]) - static_cast<int>(rayOriginIndexes_[i]));
+    if (rayRemainingSteps_[i] == 0) {
+      rayTMax_[i] = std::numeric_limits<Scalar>::max();
+    }
   }
 }
 
@@ -184,6 +194,18 @@ RayCasting<Scalar, DIM>::cast(const PointType & originPoint, const PointType & e
   return cast(endPoint);
 }
 
+//-----------------------------------------------------------------------------
+template<typename Scalar, size_t DIM>
+void RayCasting<Scalar, DIM>::step_(CellIndexes & cellIndexes, const int & axis)
+{
+  cellIndexes[axis] += rayStep_[axis];
+  if (rayRemainingSteps_[axis] > 0 && --rayRemainingSteps_[axis] == 0) {
+    rayTMax_[axis] = std::numeric_limits<Scalar>::max();
+  } else {
+    rayTMax_[axis] += rayTDelta_[axis];
+  }
+}
+
 // TODO(Jean) factoriser en utilisant const expr if
 //-----------------------------------------------------------------------------
 template<>
@@ -192,11 +214,9 @@ void RayCasting<float, 2>::next(CellIndexes & cellIndexes)
   // find minimum rayTMax_
   // increment current position
   if (rayTMax_[0] < rayTMax_[1]) {
-    cellIndexes[0] += rayStep_[0];
-    rayTMax_[0] += rayTDelta_[0];
+    step_(cellIndexes, 0);
   } else {
-    cellIndexes[1] += rayStep_[1];
-    rayTMax_[1] += rayTDelta_[1];
+    step_(cellIndexes, 1);
   }
 }
 
@@ -206,11 +226,9 @@ void RayCasting<double, 2>::next(CellIndexes & cellIndexes)
   // find minimum rayTMax_
   // increment current position
   if (rayTMax_[0] < rayTMax_[1]) {
-    cellIndexes[0] += rayStep_[0];
-    rayTMax_[0] += rayTDelta_[0];
+    step_(cellIndexes, 0);
   } else {
-    cellIndexes[1] += rayStep_[1];
-    rayTMax_[1] += rayTDelta_[1];
+    step_(cellIndexes, 1);
   }
 }
 
@@ -220,19 +238,15 @@ void RayCasting<float, 3>::next(CellIndexes & cellIndexes)
   // find minimum tMax:
   if (rayTMax_[0] < rayTMax_[1]) {
     if (rayTMax_[0] < rayTMax_[2]) {
-      cellIndexes[0] += rayStep_[0];
-      rayTMax_[0] += rayTDelta_[0];
+      step_(cellIndexes, 0);
     } else {
-      cellIndexes[2] += rayStep_[2];
-      rayTMax_[2] += rayTDelta_[2];
+      step_(cellIndexes, 2);
     }
   } else {
     if (rayTMax_[1] < rayTMax_[2]) {
-      cellIndexes[1] += rayStep_[1];
-      rayTMax_[1] += rayTDelta_[1];
+      step_(cellIndexes, 1);
     } else {
-      cellIndexes[2] += rayStep_[2];
-      rayTMax_[2] += rayTDelta_[2];
+      step_(cellIndexes, 2);
     }
   }
 }
@@ -243,19 +257,15 @@ void RayCasting<double, 3>::next(CellIndexes & cellIndexes)
   // find minimum tMax:
   if (rayTMax_[0] < rayTMax_[1]) {
     if (rayTMax_[0] < rayTMax_[2]) {
-      cellIndexes[0] += rayStep_[0];
-      rayTMax_[0] += rayTDelta_[0];
+      step_(cellIndexes, 0);
     } else {
-      cellIndexes[2] += rayStep_[2];
-      rayTMax_[2] += rayTDelta_[2];
+      step_(cellIndexes, 2);
     }
   } else {
     if (rayTMax_[1] < rayTMax_[2]) {
-      cellIndexes[1] += rayStep_[1];
-      rayTMax_[1] += rayTDelta_[1];
+      step_(cellIndexes, 1);
     } else {
-      cellIndexes[2] += rayStep_[2];
-      rayTMax_[2] += rayTDelta_[2];
+      step_(cellIndexes, 2);
     }
   }
 }
